@@ -2,7 +2,7 @@
 import ast
 
 from vstat.loader import AnalysisError
-from vstat.terms import builder, show, SELF, NONE, G, alts, walk, mentions, phi
+from vstat.terms import IT, builder, show, SELF, NONE, G, alts, walk, mentions, phi
 from vstat.guards import path_conditions, exception_name
 from vstat.cfg import cfg_of, EXIT
 from vstat.sigs import bind
@@ -153,7 +153,7 @@ def bounds(prog, rep):
         if len(loops) == 1 and b2.term(loops[0].iter, loops[0]) == P("bounds"):
             lid = f"{loops[0].lineno}:{loops[0].col_offset}"
             el = ("sub", P("bounds"), ("idx", lid, "iter"))
-            lo, up = ("item", el, 0), ("item", el, 1)
+            lo, up = IT(el, 0), IT(el, 1)
             got = {}
             for st in loops[0].body:
                 if isinstance(st, ast.Expr) and isinstance(st.value, ast.Call) and isinstance(st.value.func, ast.Attribute) and st.value.func.attr == "append":
